@@ -207,6 +207,11 @@ func (g *projGen) method(ci, mi int, prefixParams []string, types []pType, file 
 			m.Annots = append(m.Annots, pAnnot{Name: "Response", Value: "204", Desc: "done"})
 		}
 	}
+	if r.Chance(1, 40) {
+		// a status code the validators only WARN about and the reducer refuses: the run fails (with a message), it never
+		// goes on without the controller
+		m.Annots = append(m.Annots, pAnnot{Name: "ErrorResponse", Value: rng.Pick(r, []string{"499", "218", "999"}), Desc: "odd"})
+	}
 	if r.Chance(1, 12) {
 		// a repeated @Route (a warning, the project stays accepted): the route is reduced, documented and served under the FIRST
 		m.Annots = append(m.Annots, pAnnot{Name: "Route", Value: fmt.Sprintf("/legacy%d_%d", ci, mi)})
@@ -673,9 +678,9 @@ func genProject(r *rng.R, nPerturb int) (pProject, []string) {
 	if os.Getenv("VH_GENERIC") != "" && r.Chance(2, 3) {
 		// C14 only: a generic struct instantiated with a declared struct, an enum or a builtin as a route's result.
 		// Whether the tool supports this or reports an error, it must not crash.
-		p.Types = append(p.Types, pType{Kind: "struct", Name: "Box[T any]", Pkg: "ctl", File: p.Controllers[0].File,
+		p.Types = append(p.Types, pType{Kind: "struct", Name: "Crate[T any]", Pkg: "ctl", File: p.Controllers[0].File,
 			// methods on a generic type, declared in a scanned controller file: every function declaration there is looked at
-			Raw: "func (b *Box[T]) Touch() {}\n\nfunc (b Box[T]) Peek() T { return b.V }\n", Fields: append(func() []pField {
+			Raw: "func (b *Crate[T]) Touch() {}\n\nfunc (b Crate[T]) Peek() T { return b.V }\n", Fields: append(func() []pField {
 				// fields encoding/json never emits, declared BEFORE the generic one (the reduced struct does not have them: C14-F7)
 				if r.Bool() {
 					return []pField{{Name: "hidden", Type: "int"}, {Name: "Skip", Type: "string", Tag: `json:"-"`}}
@@ -683,7 +688,7 @@ func genProject(r *rng.R, nPerturb int) (pProject, []string) {
 				return nil
 			}(), pField{Name: "V", Type: "T", Tag: `json:"v"`}, pField{Name: "N", Type: "int", Tag: `json:"n"`})},
 			pType{Kind: "struct", Name: "Rec", Pkg: "ctl", File: "types.go", Fields: []pField{{Name: "A", Type: "string", Tag: `json:"a"`}}})
-		gm := pMethod{Name: "Boxed", File: p.Controllers[0].File, Results: []string{"Box[" + rng.Pick(r, []string{"Rec", "string", "int", "[]Rec", "*Rec", "Box[Rec]", "struct{ A int }", "struct{}", "map[string]Rec"}) + "]", "error"},
+		gm := pMethod{Name: "Boxed", File: p.Controllers[0].File, Results: []string{"Crate[" + rng.Pick(r, []string{"Rec", "string", "int", "[]Rec", "*Rec", "Crate[Rec]", "struct{ A int }", "struct{}", "map[string]Rec"}) + "]", "error"},
 			Annots: []pAnnot{{Name: "Method", Value: "GET"}, {Name: "Route", Value: "/boxed"}}}
 		p.Controllers[0].Methods = append(p.Controllers[0].Methods, gm)
 		if r.Chance(1, 3) {
